@@ -55,6 +55,52 @@ def rand_submit(rng, allow_stop, bare=0.22):
     return k + (":" + p if p else "")
 
 
+def prim_tokens(p):
+    out, i = [], 0
+    while i < len(p):
+        if p[i] in "we" and i + 1 < len(p):
+            out.append(p[i:i + 2])
+            i += 2
+        else:
+            out.append(p[i])
+            i += 1
+    return out
+
+
+def with_current_api(rng, cases, share=0.45):
+    """the "pool of this worker thread" API and the closure container: in a share of the cases jobs ask
+    thread_pool::current::is_stopped() ('q') / any_enqueued() ('a'), coroutine jobs re-submit the rest of their body with
+    `co_await thread_pool::current()` ('c'), client threads (no worker: thread-local pointer null) use the same API
+    (curq / cura / curc), and run_detached closures are large (detL, heap) or handed over in a caller-side cocls::function
+    (detF small, detG large). 'c' is not combined with 'r' (see gen_stop_family)."""
+    for c in cases:
+        if rng.random() > share:
+            continue
+        has_r = any("r" in w.split(":")[1] for l in c["lines"] if l.startswith("c ") for w in l.split()[1:] if ":" in w)
+        for n, l in enumerate(c["lines"]):
+            if not l.startswith("c "):
+                continue
+            ops = l.split()[1:]
+            for k, o in enumerate(ops):
+                if o in ("stop", "destroy", "stopB", "destroyB"):
+                    continue
+                kind, _, prims = o.partition(":")
+                toks = prim_tokens(prims)
+                if rng.random() < 0.35:
+                    toks.insert(rng.randint(0, len(toks)), rng.choice("qa"))
+                if kind in ("co", "rh", "aw") and not has_r and rng.random() < 0.4:
+                    toks.insert(rng.randint(0, len(toks)), "c")
+                    if rng.random() < 0.25:
+                        toks.insert(rng.randint(0, len(toks)), "c")
+                if kind == "det" and rng.random() < 0.4:
+                    kind = rng.choice(["detL", "detF", "detG"])
+                ops[k] = kind + (":" + "".join(toks) if toks else "")
+            if rng.random() < 0.25:
+                ops.insert(rng.randint(0, len(ops)), rng.choice(["curq", "cura", "curc"]))
+            c["lines"][n] = "c " + " ".join(ops)
+    return cases
+
+
 def gen_stop_family(rng, count):
     """1..3 workers, 1..3 clients, submissions of every kind, stop() from clients and from jobs (concurrent stops,
     self-stop); the pool object outlives the run, so every timing is legal"""
@@ -74,7 +120,7 @@ def gen_stop_family(rng, count):
             clients.append(ops)
         # cancelled parties that call back into the pool ('r'); only while every submission fits into the first node of the
         # std::deque (7 closures), so that the destruction order of the swapped-out queue is the submission order
-        total = sum(1 + (o.split(":")[1].count("f") + o.split(":")[1].count("d") if ":" in o else 0) for ops in clients for o in ops if o != "stop")
+        total = sum(1 + (o.split(":")[1].count("f") + o.split(":")[1].count("d") + o.split(":")[1].count("c") if ":" in o else 0) for ops in clients for o in ops if o != "stop")
         if total <= 7 and rng.random() < 0.6:
             for ops in clients:
                 for k, o in enumerate(ops):
@@ -223,6 +269,9 @@ EXH_SHAPES_2T = [
     (1, [["co", "destroy"]]), (1, [["fn", "det:D"]]), (1, [["det", "det:x"]]), (1, [["ra", "stop", "ra"]]),
     (1, [["co:s", "co", "fn"]]), (1, [["rh", "stop"]]), (1, [["aw", "stop", "rh"]]), (1, [["det:d", "stop"]]),
 ]
+EXH_SHAPES_CUR = [
+    (1, [["co:cq", "stop"]]), (1, [["co:sc", "detL"]]), (1, [["rh:ac", "curc", "stop"]]), (1, [["detF", "stop", "detG"]]),
+]
 EXH_SHAPES_3T = [
     (2, [["co", "fn", "stop"]]), (1, [["co", "fn"], ["stop"]]), (2, [["det:s", "det:s"]]), (1, [["stop"], ["stop", "co"]]),
     (2, [["det:w0", "co:e0"]]), (2, [["fn:w0", "det:e0"]]), (2, [["det:f", "destroy"]]), (2, [["fn", "co:D"]]), (2, [["det", "det:x"]]), (1, [["fn:s"], ["stop"]]),
@@ -234,7 +283,7 @@ def parse(case, out):
     nw = int(hdr[3])
     nc = sum(1 for l in case["lines"] if l.split()[0] == "c")
     has_b = "B" in hdr[4:]
-    info = {"nw": nw, "nt": nw + nc + (1 if has_b else 0), "hasB": has_b, "bw": nw if has_b else None, "b_events": [], "jobs": {}, "events": [], "quiescent": False, "crash": None, "assert": None,
+    info = {"nw": nw, "nt": nw + nc + (1 if has_b else 0), "hasB": has_b, "bw": nw if has_b else None, "b_events": [], "cur_events": [], "function_bad": None, "jobs": {}, "events": [], "quiescent": False, "crash": None, "assert": None,
             "threads": None, "final": {}, "pool": None, "fin": set(), "ops": [], "last": {}}
     for idx, l in enumerate(out):
         w = l.split()
@@ -258,6 +307,10 @@ def parse(case, out):
             info["events"].append((w[0], int(w[1][1:]), idx))
         elif w[0] in ("stopB-begin", "stopB-end", "destroyB-begin", "destroyedB", "destroyB-skip"):
             info["b_events"].append((w[0], int(w[1][1:]), idx))
+        elif w[0] in ("cur-stopped", "cur-enq", "cur-inline"):
+            info["cur_events"].append((w[0], int(w[1][1:]), w[2] if len(w) > 2 else None, idx))
+        elif w[0].startswith("function-bad"):
+            info["function_bad"] = l
         elif w[0] == "quiescent":
             info["quiescent"] = True
         elif w[0] == "threads":
@@ -290,14 +343,15 @@ class PoolSuite(Suite):
 
     def gen_cases(self, rng, tier):
         if tier == "quick":
-            return with_cv_yield(rng, gen_stop_family(rng, 3000) + gen_destroy_client(rng, 800) + gen_destroy_job(rng, 800)
-                                 + gen_idle_family(rng, 600) + gen_dependent_family(rng, 800)
-                                 + gen_exhaustive(EXH_SHAPES_2T[:4], 8)) + gen_two_pools(rng, 800)
+            return with_current_api(rng, with_cv_yield(rng, gen_stop_family(rng, 3000) + gen_destroy_client(rng, 800)
+                                    + gen_destroy_job(rng, 800) + gen_idle_family(rng, 600) + gen_dependent_family(rng, 800))
+                                    + gen_two_pools(rng, 800)) + gen_exhaustive(EXH_SHAPES_2T[:4] + EXH_SHAPES_CUR, 8)
         base = (gen_stop_family(rng, 60000) + gen_destroy_client(rng, 14000) + gen_destroy_job(rng, 14000) + gen_idle_family(rng, 8000)
                 + gen_dependent_family(rng, 12000))
         exh = gen_exhaustive(EXH_SHAPES_2T, 12) + gen_exhaustive(EXH_SHAPES_3T, 8)
         exh_cv = [dict(c, lines=[c["lines"][0] + " cvy"] + c["lines"][1:]) for c in gen_exhaustive(EXH_SHAPES_2T[:6], 11)]
-        return with_cv_yield(rng, base) + exh + exh_cv + gen_two_pools(rng, 12000)
+        exh += gen_exhaustive(EXH_SHAPES_CUR, 12)
+        return with_current_api(rng, with_cv_yield(rng, base) + gen_two_pools(rng, 12000)) + exh + exh_cv
 
     def normalize(self, lines):
         """the order in which stop() destroys the closures of the swapped-out queue is std::deque's (unspecified; libstdc++
@@ -363,6 +417,19 @@ class PoolSuite(Suite):
                 msgs.append("twice: the future of job j%d delivered its value %d times" % (j, len(jb["values"])))
             if jb["values"] and not jb["runs"]:
                 msgs.append("value: the future of job j%d has a value but the job never ran" % j)
+        # 1b. the closure container and the current-pool API
+        if i["function_bad"]:
+            msgs.append("closure: cocls::function lost or duplicated a target (assignment / move / emptiness): " + i["function_bad"])
+        for k, t, r, idx in i["cur_events"]:
+            if t >= nw and k == "cur-stopped" and r != "1":
+                msgs.append("current: thread_pool::current::is_stopped() is false on thread t%d which is no worker" % t)
+            if t >= nw and k == "cur-enq" and r != "0":
+                msgs.append("current: thread_pool::current::any_enqueued() is true on thread t%d which is no worker" % t)
+            if t < nw and k == "cur-inline" and (first_stop is None or idx < first_stop):
+                msgs.append("current: co_await thread_pool::current() on worker t%d of a running pool did not hand the coroutine "
+                            "to the pool" % t)
+            if t < nw and k == "cur-stopped" and r == "1" and (first_stop is None or idx < first_stop):
+                msgs.append("current: thread_pool::current::is_stopped() is true on worker t%d although the pool was not stopped" % t)
         # 2. stop()/destructor terminate; the first stop joins every other worker; no job is stranded while a worker idles.
         #    A thread blocked in a user-level wait (`flag-block`: a job waiting for another job) is the program's business;
         #    everything else that is blocked at the end of the run must be explained by it.
@@ -461,7 +528,9 @@ class PoolSuite(Suite):
               "job_stops": 0, "self_detach": 0, "concurrent_stops": 0, "destroy_by_client": 0, "destroy_by_job": 0,
               "destroy_by_closure_dtor": 0, "idle_ends": 0, "deadlocks": 0, "nested_submissions": 0, "cv_blocks": 0, "join_blocks": 0, "user_waits_blocked": 0,
               "user_deadlock_ends": 0, "dependent_pairs": 0,
-              "cv_entry_yield_cases": 0, "lock_blocks": 0, "two_pool_cases": 0, "other_pool_stops": 0, "other_pool_destroys": 0}
+              "cv_entry_yield_cases": 0, "current_is_stopped": 0, "current_any_enqueued": 0, "current_co_await_inline": 0,
+              "current_co_await_resubmitted": 0, "current_api_from_non_worker": 0, "closures_large_heap": 0,
+              "closures_via_caller_function": 0, "lock_blocks": 0, "two_pool_cases": 0, "other_pool_stops": 0, "other_pool_destroys": 0}
         for c in cases:
             o = outs.get(str(c["id"]), [])
             try:
@@ -500,6 +569,14 @@ class PoolSuite(Suite):
                 st["idle_ends" if not begins else "deadlocks"] += 1
             st["cv_blocks"] += sum(1 for l in i["ops"] if "cv-block" in l)
             st["join_blocks"] += sum(1 for l in i["ops"] if "join-block" in l)
+            st["current_is_stopped"] += sum(1 for k, t, r, idx in i["cur_events"] if k == "cur-stopped")
+            st["current_any_enqueued"] += sum(1 for k, t, r, idx in i["cur_events"] if k == "cur-enq")
+            st["current_co_await_inline"] += sum(1 for k, t, r, idx in i["cur_events"] if k == "cur-inline")
+            st["current_api_from_non_worker"] += sum(1 for k, t, r, idx in i["cur_events"] if t >= i["nw"])
+            st["current_co_await_resubmitted"] += sum(1 for j, jb in i["jobs"].items() if jb["kind"] == "co" and jb["by"] < i["nw"])
+            words = [w for l in c["lines"] if l.startswith("c ") for w in l.split()[1:]]
+            st["closures_large_heap"] += sum(1 for w in words if w.split(":")[0] in ("detL", "detG"))
+            st["closures_via_caller_function"] += sum(1 for w in words if w.split(":")[0] in ("detF", "detG"))
             st["cv_entry_yield_cases"] += 1 if "cvy" in c["lines"][0].split()[4:] else 0
             st["lock_blocks"] += sum(1 for l in i["ops"] if "lock-block" in l)
             st["two_pool_cases"] += 1 if i["hasB"] else 0
